@@ -400,3 +400,60 @@ package server
 //@ func (*Server).RPush
 //@ requires {C18} storeOK(server) && conn != nil
 //@ ensures {C18} storeOK(server)
+
+// ---------------------------------------------------------------- set.go: a set is set.members without duplicates
+
+//@ spec func noDupStr(s []string) bool = forall i int, j int :: 0 <= i && i < j && j < len(s) ==> s[i] != s[j]
+//@ spec func inStrs(s []string, n int, x string) bool = exists i int :: 0 <= i && i < n && s[i] == x
+
+//@ func NewSet
+//@ assigns nothing
+//@ ensures {C18} result != nil && fresh(result) && len(result.members) == 0
+
+//@ func (*Set).Members
+//@ requires noDupStr(set.members)
+//@ assigns nothing
+//@ ensures {C18} result == set.members
+//@ ensures noDupStr(set.members)
+//@ ensures noDupStr(result)
+
+//@ func (*Set).Add
+//@ requires {C18} noDupStr(set.members) && arr(members) != arr(set.members)
+//@ assigns set.members, comp:E|Str, alloc
+//@ ensures {C18} noDupStr(set.members)
+//@ ensures {C18} len(set.members) == old(len(set.members)) + result && 0 <= result && result <= len(members)
+//@ ensures {C18} forall i int :: 0 <= i && i < old(len(set.members)) ==> set.members[i] == old(set.members[i])
+//@ ensures {C18} forall j int :: 0 <= j && j < len(members) ==> inStrs(set.members, len(set.members), old(members[j]))
+//@ ensures {C18} forall i int :: old(len(set.members)) <= i && i < len(set.members) ==> inStrs(members, len(members), set.members[i])
+//@ loop 0
+//@   invariant -1 <= rangeindex && rangeindex < len(members) && 0 <= addedMemberCount && addedMemberCount <= rangeindex + 1
+//@   invariant noDupStr(set.members) && len(set.members) == old(len(set.members)) + addedMemberCount && arr(members) != arr(set.members)
+//@   invariant forall i int :: 0 <= i && i < old(len(set.members)) ==> set.members[i] == old(set.members[i])
+//@   invariant forall j int :: 0 <= j && j < len(members) ==> members[j] == old(members[j])
+//@   invariant forall j int :: 0 <= j && j <= rangeindex ==> inStrs(set.members, len(set.members), members[j])
+//@   invariant forall i int :: old(len(set.members)) <= i && i < len(set.members) ==> inStrs(members, len(members), set.members[i])
+//@   decreases len(members) - rangeindex
+//@ loop 1
+//@   invariant -1 <= rangeindex && rangeindex < len(set.members)
+//@   invariant !hasMember ==> forall i int :: 0 <= i && i <= rangeindex ==> set.members[i] != member
+//@   invariant hasMember ==> inStrs(set.members, rangeindex + 1, member)
+//@   decreases len(set.members) - rangeindex
+
+//@ func (*Set).Rem
+//@ requires {C18} noDupStr(set.members) && arr(members) != arr(set.members)
+//@ assigns set.members, comp:E|Str, alloc
+//@ ensures {C18} noDupStr(set.members)
+//@ ensures {C18} len(set.members) == old(len(set.members)) - result && 0 <= result && result <= len(members)
+//@ ensures {C18} forall j int, i int :: 0 <= j && j < len(members) && 0 <= i && i < len(set.members) ==> set.members[i] != members[j]
+//@ ensures {C18} forall i int :: 0 <= i && i < len(set.members) ==> exists k int :: 0 <= k && k < old(len(set.members)) && old(set.members[k]) == set.members[i]
+//@ loop 0
+//@   invariant -1 <= rangeindex && rangeindex < len(members) && 0 <= removedMemberCount && removedMemberCount <= rangeindex + 1
+//@   invariant noDupStr(set.members) && len(set.members) == old(len(set.members)) - removedMemberCount && arr(members) != arr(set.members)
+//@   invariant forall j int :: 0 <= j && j < len(members) ==> members[j] == old(members[j])
+//@   invariant forall j int, i int :: 0 <= j && j <= rangeindex && 0 <= i && i < len(set.members) ==> set.members[i] != members[j]
+//@   invariant forall i int :: 0 <= i && i < len(set.members) ==> exists k int :: 0 <= k && k < old(len(set.members)) && old(set.members[k]) == set.members[i]
+//@   decreases len(members) - rangeindex
+//@ loop 1
+//@   invariant -1 <= rangeindex && rangeindex < len(set.members)
+//@   invariant forall i int :: 0 <= i && i <= rangeindex ==> set.members[i] != rm
+//@   decreases len(set.members) - rangeindex
